@@ -241,6 +241,28 @@ def rule_get_quantizer(rep, repo):
             "pattern-group-mixes-roles",
             "the bias of a grouped layer must get its own variable (got %r)"
             % (r3,), loc=loc)
+  # two pattern groups: each group registers its own tuner variable per role
+  # and is filtered by its own limit - a choice made for one group is not
+  # handed to the other
+  _, _, o = hyper(repo, {"^enc_.*": [8, 8, 8], "^dec_.*": [2, 4, 4],
+                         "Dense": [16, 16, 16]})
+  pe = PE(repo)
+  hp = Hp()
+  f = Func(fn, aq, [], "_get_quantizer", o, c)
+  try:
+    pe.call_func(f, [hp.mock(), "enc_0_kernel", "enc_0", "Dense"], {})
+    n_enc = len(hp.calls)
+    rd = pe.call_func(f, [hp.mock(), "dec_0_kernel", "dec_0", "Dense"], {})
+    off_d = sorted(hp.calls[-1][2]) if len(hp.calls) > n_enc else None
+    rep.check(off_d == ["kernel_2"] and isinstance(rd, tuple) and
+              rd[0] == "kernel_2", "R4", unit, "pattern-groups-share-choices",
+              "with two pattern groups ('^enc_.*' up to 8 bits, '^dec_.*' up "
+              "to 2 bits) the kernel of dec_0 is offered %s and gets %r after "
+              "enc_0 was served; expected its own variable over ['kernel_2']"
+              % (off_d, rd), loc=loc)
+  except PyRaise as e:
+    rep.fail("R4", unit, "pattern-groups-share-choices",
+             "_get_quantizer raises %s with two pattern groups" % e, loc=loc)
   # overlapping name entries: a specific entry written before a broader one
   # that also matches (the idiom {"dense_0": ..., "dense": ...}) keeps its own
   # limit - whether the first written or the most specific entry wins, the
